@@ -288,7 +288,7 @@ impl TypeCheckVisitor<'_> {
 
         let self_ty = Type::from_hint(&method_info.receiver_hint, &self.env.types, &type_bindings)
             .unwrap_or_err_ty();
-        self.bindings.set(&method_info.receiver_sym, self_ty);
+        self.set_binding(&method_info.receiver_sym, self_ty);
 
         // TODO: generic variables are bound here.
 
